@@ -24,8 +24,9 @@
 (*   result    no panic escaped; every occurred failure that must be reported  *)
 (*             is found by errors.Is (its E_i, PANIC, CTX, X as Need says);    *)
 (*             EOF / SKIP / CTX (unless included) / X (if excluded) are never  *)
-(*             found; nil iff no reportable failure occurred; outputs are      *)
-(*             results of successful items, each at most once; if every        *)
+(*             found (unless they came as the value of a panic); nil iff no    *)
+(*             reportable failure occurred; outputs are results of successful  *)
+(*             items, each at most once; if every                              *)
 (*             occurred failure is one the run must continue after: every      *)
 (*             item was processed exactly once and every successful item's     *)
 (*             output delivered                                                *)
@@ -98,12 +99,14 @@ Result ==
            okIts == {i \in Exited : kindOf[i] = "ok"}
            \* every failure that occurred is one the run must continue after (and then all n items must occur)
            contAll == \A i \in Exited : Cont(i) = "must"
+           \* never-reported sentinels that came as the value of a (reported) panic decide nothing
+           carried == UNION {MayCarry(kindOf[i]) : i \in Exited}
            swallowed == {i \in musts : ~({Name(s, i) : s \in Need(kindOf[i])} \subseteq is)}
            why == First(<<
                <<Ev.panicked = 0, "escaped-as-panic">>,
                <<swallowed = {}, "swallowed">>,
-               <<is \cap (NeverFound(O) \ {"X"}) = {}, "never-reported-error-found">>,
-               <<~("X" \in is /\ "X" \in NeverFound(O)), "excluded-error-reported">>,
+               <<is \cap ((NeverFound(O) \ carried) \ {"X"}) = {}, "never-reported-error-found">>,
+               <<~("X" \in is /\ "X" \in NeverFound(O) \ carried), "excluded-error-reported">>,
                <<musts # {} => ~Ev.nil, "nil-despite-failure">>,
                <<(musts = {} /\ anys = {}) => Ev.nil, "non-nil-without-failure">>,
                <<\A a, b \in 1..Len(got) : got[a] = got[b] => a = b, "output/invented-or-duplicate">>,
